@@ -128,6 +128,9 @@ def fe_scenarios(ctx):
         s.wait(it)
         s.round(tags, {})
         out.append(s.done())
+    # a response of exactly the limit to a caller whose connection stalls while the next caller is served: intact
+    import c01
+    out.append(dict(c01.fe_stalled("c14-fe-stall", L, "response"), meta={"family": "sizes-frontend", "kind": "stalled-caller", "size": L}))
     return out
 
 
